@@ -39,10 +39,12 @@ def impl_attrs(df):
 
 
 def encoding_known(value):
+    """the documented rule: the name of a codec that can be used for text (since 6cd893e; before: any codec name)"""
     try:
         codecs.lookup(value)
+        "".encode(value)
         return True
-    except LookupError:
+    except (LookupError, UnicodeError):
         return False
     except Exception:  # noqa
         return None
